@@ -15,6 +15,7 @@ package nodes
 //@ func conditionStatus
 //@   ensures HasCond(n, ct, result) || (NoCond(n, ct) && result == corev1.ConditionUnknown)
 //@   modifies nothing
+//@   loop 1 binds c
 //@   loop 1 invariant forall j int :: 0 <= j && j < iter ==> n.Status.Conditions[j].Type != ct
 
 // NetUnavail: the node carries NetworkUnavailable=True.
